@@ -281,6 +281,7 @@ structure Exact (T : Tables) (c : Ctx) (a : Acc) : Prop where
   dec : decLoop T c.cw 0 false 0 {} = .ok a
   text : a.rev.reverse = c.msg.take c.pos
   full : ∃ s, c.sym = some s ∧ s.cap = c.count
+  pend : a.pend = 0
 
 theorem take_add_drop_take (l : List Nat) (i k : Nat) :
     l.take i ++ (l.drop i).take k = l.take (i + k) := by
@@ -373,7 +374,7 @@ theorem b256_step_inv {T : Tables} {syms : List SymbolInfo} {la : LookAhead} {c 
           obtain ⟨hm2, hfull⟩ := hcond
           refine ⟨a.push256All data, Acc.push256All_trailer _ _, by simp [Ctx.writeAll, umsg, hsf1.msg],
             by simp [Ctx.writeAll, ucfg, hsf1.cfg], by simp [Ctx.writeAll, uskip, hsf1.skip], hpos2, hpt2, hnew2,
-            Or.inr ⟨hm2, ⟨?_, htext, s, hs, ?_⟩⟩⟩
+            Or.inr ⟨hm2, ⟨?_, htext, ⟨s, hs, ?_⟩, by rw [Acc.push256All_pend]; exact hLpend⟩⟩⟩
           · have := decodes_b256_toEnd hLdec data hdb
             simpa [Ctx.writeAll, ucw, hcw1, hLcw, hcount2, List.append_assoc] using this
           · have e1 : s.cap = c1.count + data.length + 1 := by rw [hcapeq] at hfull; omega
